@@ -141,7 +141,7 @@ def build_cube(case):
 def run(case):
     cube, data = build_cube(case)
     nd = data.ndim
-    items = Q.dec_items(case["items"])
+    items = Q.np_ints(case["key"], Q.dec_items(case["items"]))
     item = items[0] if case["bare"] and len(items) == 1 else items
     has_none = any(i is None for i in items)
     try:
